@@ -150,8 +150,16 @@ def tlc(module, cfg, env=None, workers=1, timeout=1700, xmx="8g", extra=None, ta
 def mc(module, cfg, workers=16, timeout=1700, xmx="16g", coverage=False):
     """Model-checks a bounded instance; a violated invariant of the *model* is a machinery
     failure (the design is wrong or the spec is), never a code violation."""
-    r = tlc(module, cfg, workers=workers, timeout=timeout, xmx=xmx, extra=(["-coverage", "1"] if coverage else None))
-    shutil.rmtree(r["wd"], ignore_errors=True)
+    for attempt in range(4):
+        # TLC's multi-worker mode has a benign race on lazily normalised shared record values
+        # ("Attempted to select nonexistent field ... from the record" that has the field): it surfaces
+        # as an unexpected exception, never as a wrong verdict; such a run is repeated (last try: one worker)
+        r = tlc(module, cfg, workers=(workers if attempt < 3 else 1), timeout=timeout, xmx=xmx,
+                extra=(["-coverage", "1"] if coverage else None))
+        shutil.rmtree(r["wd"], ignore_errors=True)
+        if r["ok"] or "TLC threw an unexpected exception" not in (r["error"] or ""):
+            break
+        log("[tlc] %s/%s: unexpected TLC exception (worker race), retrying" % (module, cfg))
     if not r["ok"]:
         raise Machinery("model check %s/%s failed:\n%s" % (module, cfg, r["error"]))
     return dict(module=module, cfg=cfg, states=r["distinct"], transitions=r["generated"])
